@@ -16,7 +16,11 @@
 (* becomes or is replayed as in-flight gets expiry past resp. future).     *)
 (* Drop ladder when full, first applicable rule:                           *)
 (*   1 the oldest entry is in flight and expired -> it  (weakest reading   *)
-(*     of "an expired in-flight entry": only the front is inspected)       *)
+(*     of "an expired in-flight entry": only the front is inspected;       *)
+(*     constant Rule1 = "front").  The literal reading - any expired       *)
+(*     in-flight entry, the first such - is Rule1 = "any"; an              *)
+(*     implementation satisfies the property if it follows either, and is  *)
+(*     checked against the one it follows (mem: front, redis: any).        *)
 (*   2 nothing is queued                -> the newcomer                    *)
 (*   3 an expired queued message        -> the first such                  *)
 (*   4 a queued QoS 0 message           -> the first such                  *)
@@ -35,6 +39,7 @@ EXTENDS Integers, Sequences, FiniteSets, TLC, Json
 
 CONSTANTS Max,      \* capacity
           IE,       \* "off" | "instant" | "never"
+          Rule1,    \* "front" | "any": which expired in-flight entry ladder rule 1 looks for
           Menu,     \* set of [qos, exp, big]: the kinds of message Add may insert
           NMsg,     \* bound: number of Add operations (tags 1..NMsg in insertion order)
           Ids,      \* packet ids the caller supplies to Read
@@ -80,6 +85,10 @@ QueuedIdx(q)   == {i \in 1..Len(q) : q[i].pid = 0}
 Pids(q)        == {q[i].pid : i \in InflightIdx(q)}
 Handed(s)      == {s.q[i].pid : i \in 1..s.cur}       \* ids handed out since the last Init, still present
 
+\* the candidates of ladder rule 1 (the first of them is sacrificed)
+Rule1Idx(q) == LET E == {i \in InflightIdx(q) : q[i].exp = "past"}
+               IN IF Rule1 = "front" THEN E \cap {1} ELSE E
+
 ----------------------------------------------------------------------------
 (* The operations as pure operators                                        *)
 
@@ -94,7 +103,7 @@ DoAdd(s, e) ==
          [st |-> [s EXCEPT !.q = Append(RemoveAt(q, i), e), !.cur = IF i <= s.cur THEN s.cur - 1 ELSE s.cur],
           out |-> [Out0 EXCEPT !.drop = <<D(q[i], why)>>, !.dI = IF why = "expired_inflight" THEN -1 ELSE 0]]
   IN IF n < Max THEN [st |-> [s EXCEPT !.q = Append(q, e)], out |-> [Out0 EXCEPT !.dQ = 1]]
-     ELSE IF n >= 1 /\ q[1].pid # 0 /\ q[1].exp = "past" THEN DropAt(1, "expired_inflight")
+     ELSE IF Rule1Idx(q) # {} THEN DropAt(MinOf(Rule1Idx(q)), "expired_inflight")
      ELSE IF Queued = {} THEN DropNew
      ELSE IF ExpQ # {} THEN DropAt(MinOf(ExpQ), "expired")
      ELSE IF Q0 # {} THEN DropAt(MinOf(Q0), "full")
@@ -360,7 +369,7 @@ AddStepOK ==
        LET o == last'.out
            q == st.q
            full == Len(q) >= Max
-           frontExp == Len(q) >= 1 /\ q[1].pid # 0 /\ q[1].exp = "past"
+           frontExp == Rule1Idx(q) # {}
            Queued == QueuedIdx(q)
            anyExpQ == \E i \in Queued : q[i].exp = "past"
            anyQ0 == \E i \in Queued : q[i].qos = 0
@@ -370,7 +379,8 @@ AddStepOK ==
                 /\ LET d == o.drop[1]
                        newcomer == d.m = last'.m
                        victim == CHOOSE i \in 1..Len(q) : q[i].m = d.m
-                   IN /\ frontExp => (~newcomer /\ victim = 1 /\ d.why = "expired_inflight" /\ o.dI = -1)
+                   IN /\ frontExp => (~newcomer /\ victim = MinOf(Rule1Idx(q)) /\ q[victim].pid # 0 /\ q[victim].exp = "past"
+                                       /\ d.why = "expired_inflight" /\ o.dI = -1)
                       /\ (~frontExp) =>
                            (/\ o.dI = 0
                             /\ (Queued = {}) => newcomer
